@@ -22,7 +22,9 @@ CLAUSES = {
     "C20.chain": 8000, "C20.chain.mcfg": 2000, "C20.log.state": 8000, "C20.lbook.rep": 8000,
     "C20.fresh.equal": 1500, "C20.fresh.noalias": 3000, "C20.start.unmodified": 2000,
 }
-HOOKS_REQUIRED = ["operator/logbook events", "evolve calls", "later replicates after in-place mutation"]
+HOOKS_REQUIRED = ["operator/logbook events", "evolve calls", "later replicates after in-place mutation",
+                  "anchor entered: RecurrentSelectionBreedingProgram.reset", "anchor entered: RecurrentSelectionBreedingProgram.advance",
+                  "anchor entered: RecurrentSelectionBreedingProgram.evolve", "anchor entered: RecurrentSelectionBreedingProgram.initialize"]
 RULE = ("one case = one programme built from a seeded initial state (classes: empty, scalars, nested lists/dicts/sets, "
         "numpy arrays incl. views/object arrays/NaN, plain objects, cross-container aliasing and cycles, non-string keys, "
         "real pybrops matrices), initialised through the constructor, the setters, the initop inside evolve() or an explicit "
@@ -556,13 +558,36 @@ def one_case(ctx, c):
         mon.end_call("advance", lb.rep, "advance() after evolve()")
 
 
-QUICK_TOTAL, THOROUGH_TOTAL = 1200, 60000
+QUICK_TOTAL, THOROUGH_TOTAL = 1200, 40000
+_INSTALLED = []
+
+
+def _install(ctx):
+    """Reach evidence: count entries of the anchored methods (wrapped on the class, from outside the repository)."""
+    if _INSTALLED:
+        return
+    from pbmon import hooks
+    cls = RecurrentSelectionBreedingProgram
+    for m in ("initialize", "reset", "advance", "evolve"):
+        fn = cls.__dict__[m]
+        if not boot.under_repo(fn):
+            raise ImportError("RecurrentSelectionBreedingProgram.%s does not come from the repository working tree" % m)
+
+        def make(orig, name="anchor entered: RecurrentSelectionBreedingProgram.%s" % m):
+            def w(self, *a, **k):
+                ctx.hook(name)
+                return orig(self, *a, **k)
+            w.__wrapped_orig__ = orig
+            return w
+        _INSTALLED.extend(hooks.wrap_method(cls, m, make))
 
 
 def run_shard(ctx):
+    _install(ctx)
     for c in ctx.case_ids(QUICK_TOTAL, THOROUGH_TOTAL):
         one_case(ctx, c)
 
 
 def replay(ctx, coords):
+    _install(ctx)
     one_case(ctx, int(coords[0]))
